@@ -343,6 +343,128 @@ def _reads_outside(prog, finfo, node, depth=0, seen=None):
     return None
 
 
+# ------------------------------------------------------------------------------------ composition quantities
+# What a key component *determines* and what a cached value *depends on*, in terms of the quantities every Sequence field is a function of.
+# '*' = the residue string itself, 'cp' = the whole charge pattern.  The value-side entries are exact dependence sets; each is an obligation
+# that another check establishes from the source on every run (C04: composition folds are functions of the counts; C08: the region depends on
+# (n+, n-, N); C03: the delta-max *value* depends on (n+, n-, n0) only, the permutant is spelled with the parent's residues; C05: delta, kappa,
+# SCD read the sequence only through the charge pattern).
+KEY_CALL_Q = {"countPos": "npos", "countNeg": "nneg", "countNeut": "n0", "get_countPos": "npos", "get_countNeg": "nneg", "get_countNeut": "n0",
+              "get_length": "N", "__len__": "N", "Fplus": "r:npos", "Fminus": "r:nneg", "get_fraction_positive": "r:npos", "get_fraction_negative": "r:nneg"}
+KEY_WHOLE = {"seq": "*", "get_sequence": "*", "chargePattern": "cp"}
+VAL_CALL_Q = {"countPos": {"npos"}, "countNeg": {"nneg"}, "countNeut": {"n0"}, "FCR": {"npos", "nneg", "N"}, "NCPR": {"npos", "nneg", "N"},
+              "mean_net_charge": {"npos", "nneg", "N"}, "sigma": {"npos", "nneg", "N"}, "phasePlotRegion": {"npos", "nneg", "N"},
+              "Fplus": {"npos", "N"}, "Fminus": {"nneg", "N"}, "delta": {"cp"}, "deltaForm": {"cp"}, "kappa": {"cp"}, "sequence_charge_decoration": {"cp"}}
+COUNTS = {"npos", "nneg", "n0", "N"}
+
+
+def q_closure(q):
+    q = set(q)
+    if "*" in q:
+        return q | {"cp"} | COUNTS | {"r:npos", "r:nneg"}
+    if "cp" in q:
+        q |= COUNTS
+    changed = True
+    while changed:
+        changed = False
+        if len(q & COUNTS) >= 3 and not COUNTS <= q:
+            q |= COUNTS
+            changed = True
+        for x in ("npos", "nneg"):
+            if "N" in q and ("r:" + x in q) != (x in q):
+                q |= {x, "r:" + x}
+                changed = True
+    return q
+
+
+def key_quantities(prog, finfo, key):
+    """-> (set of quantities the key determines, True if some component is not understood)"""
+    comps = key.elts if isinstance(key, ast.Tuple) else [key]
+    out, unknown = set(), False
+    recv = ("self", "self.SeqObj")
+    for c in comps:
+        if isinstance(c, ast.Call) and getattr(c.func, "id", None) in ("tuple", "str", "list") and len(c.args) == 1 and not c.keywords:
+            c = c.args[0]                      # tuple(self.chargePattern), str(self.seq): injective repackaging
+        if isinstance(c, ast.Call) and isinstance(c.func, ast.Attribute) and not c.args and not c.keywords and unparse(c.func.value) in recv:
+            if c.func.attr in KEY_CALL_Q:
+                out.add(KEY_CALL_Q[c.func.attr])
+                continue
+            if c.func.attr in KEY_WHOLE:
+                out.add(KEY_WHOLE[c.func.attr])
+                continue
+        if isinstance(c, ast.Call) and getattr(c.func, "id", None) == "len" and len(c.args) == 1 \
+                and unparse(c.args[0]) in ("self", "self.SeqObj", "self.seq", "self.SeqObj.seq", "self.chargePattern", "self.SeqObj.chargePattern"):
+            out.add("N")
+            continue
+        if isinstance(c, ast.Attribute) and unparse(c.value) in recv:
+            if c.attr == "len":
+                out.add("N")
+                continue
+            if c.attr in KEY_WHOLE:
+                out.add(KEY_WHOLE[c.attr])
+                continue
+        unknown = True
+    return out, unknown
+
+
+def value_quantities(site, valdeps):
+    """quantities the stored value depends on, from the name-level dependence set; None when something is not in the table"""
+    if site.fnode.name == "deltaMax" and site.cls == "Sequence":
+        # the stored value is made of the two memo fields of the object: the delta-max value and/or the permutant
+        flds = {n.attr for n in ast.walk(site.value) if is_self_attr(n)} | {n.id for n in ast.walk(site.value) if isinstance(n, ast.Name)}
+        if any("seqdeltamax" in x.lower() or "permut" in x.lower() for x in flds):
+            return {"*"}
+        if flds & {"dmax"} and not (flds - {"dmax", "self"}):
+            return {"npos", "nneg", "n0"}
+        return None
+    out = set()
+    calls = {d[5:] for d in valdeps if d.startswith("call:")}
+    for c in calls:
+        if c not in VAL_CALL_Q:
+            return None
+        out |= VAL_CALL_Q[c]
+    for d in valdeps:
+        if d.startswith(("call:", "lossy:")):
+            continue                      # fields read inside the called methods are accounted for by the call's entry
+        if d == "self.len":
+            out.add("N")
+        elif d in ("self.seq", "self.*"):
+            out.add("*")
+        elif d == "self.chargePattern":
+            out.add("cp")
+        elif d.startswith("self."):
+            return None
+        elif d.startswith(("param:", "proj:")):
+            continue
+    return out or None
+
+
+def _enclosing_tests(fnode, target):
+    out = []
+
+    def walk(stmts, tests):
+        for st in stmts:
+            if st is target:
+                out.extend(tests)
+                return True
+            if isinstance(st, ast.If):
+                if walk(st.body, tests + [st.test]) or walk(st.orelse, tests + [st.test]):
+                    return True
+            elif isinstance(st, (ast.For, ast.While)):
+                hdr = st.iter if isinstance(st, ast.For) else st.test
+                if walk(st.body, tests + [hdr]) or walk(st.orelse, tests):
+                    return True
+            elif isinstance(st, ast.With):
+                if walk(st.body, tests):
+                    return True
+            elif isinstance(st, ast.Try):
+                if walk(st.body, tests) or any(walk(h.body, tests) for h in st.handlers) or walk(st.orelse, tests) or walk(st.finalbody, tests):
+                    return True
+        return False
+    walk(fnode.body, [])
+    return out
+
+
 def _inline_key(site, finfo):
     from .bind import inline_locals
     try:
@@ -367,6 +489,11 @@ def analyse(prog, E):
         d = Deps(prog, site.mod, site.fnode, site.cls, E)
         keydeps = d.of(site.key)
         valdeps = d.of(site.value)
+        # control dependence of the store itself: `if <test>: T[k] = 0 else: T[k] = f(...)` - each stored value also depends on <test>
+        # (the miss test `k not in T` mentions the table and is not an input)
+        for test in _enclosing_tests(site.fnode, site.store):
+            if not any(unparse(x) in (site.table, "self." + site.table) for x in ast.walk(test)):
+                valdeps |= d.of(test)
         # control dependence of the store itself and of the value: every guard around assignments is in Deps.of already
         key_names = {k.replace("lossy:", "") for k in keydeps}
         missing = []
@@ -375,6 +502,9 @@ def analyse(prog, E):
         lossy_params = []
         infl = {x[6:] for x in valdeps if x.startswith("param:")} | {x.split(":", 2)[2] for x in valdeps if x.startswith("proj:")}
         finfo = site.mod.funcs.get((site.cls + "." if site.cls else "") + site.fnode.name)
+        if site.cls == "Sequence" and site.fnode.name == "deltaMax" and value_quantities(site, valdeps) is not None:
+            # exact dependence of the two memo fields is known (C03): the flag only selects what is returned, it is not an input of either
+            infl.discard("returnSeqDeltaMax")
         for name in sorted(infl):
             p = "param:" + name
             if p in keydeps:
@@ -406,6 +536,24 @@ def analyse(prog, E):
         if site.scope != "object":
             # memo fields of the object itself (dmax, seqDeltaMax) are results, not inputs
             fields -= {"self.dmax", "self.seqDeltaMax"}
+        quantity_verdict = None
+        if site.scope != "object" and fields and finfo is not None:
+            kq, k_unknown = key_quantities(prog, finfo, _inline_key(site, finfo))
+            if kq or k_unknown:
+                # the key does mention the receiver's state: names alone cannot say whether what it mentions determines what the value reads
+                # (every field derives from the residue string).  Decide on quantities when both sides are in the tables, else leave it open.
+                vq = value_quantities(site, valdeps)
+                have = q_closure(kq)
+                if vq is not None and vq <= have:
+                    quantity_verdict = "ok"
+                elif vq is not None and not k_unknown:
+                    gap = sorted(vq - have)
+                    quantity_verdict = "violation"
+                    missing.append("quantity:" + ",".join(gap))
+                    why.append("table is shared by all objects; the stored value depends on %s, the key determines only %s" % (gap, sorted(kq)))
+                else:
+                    quantity_verdict = "unknown"
+                fields = set()
         for fld in sorted(fields):
             name = fld[5:]
             ws = writers.get((site.cls, name), set()) - {"__init__"}
@@ -432,6 +580,10 @@ def analyse(prog, E):
                 why.append("the stored value is read from outside the program (%s); the key %s only names where to read, so a later call returns "
                            "what was there the first time" % (outside, unparse(site.key)))
         lossy = sorted(k for k in keydeps if k.startswith("lossy:")) + lossy_params
+        if quantity_verdict == "ok":
+            lossy = lossy_params               # the projections of the receiver in the key were shown sufficient
+        elif quantity_verdict == "unknown":
+            lossy = lossy or ["receiver state reaches the key only through projections that are not in the quantity table"]
         verdict = "violation" if missing else ("unknown" if lossy else "ok")
         res.append({"site": site, "verdict": verdict, "missing": missing, "why": why, "lossy": lossy,
                     "key": unparse(site.key), "value": unparse(site.value)[:80]})
